@@ -950,20 +950,37 @@ Proof.
   exact (inv_rapp_proc _ _ HI2 (pi_app pi) p Hin Ha Hse).
 Qed.
 
-(* F8 (DESIGN §6): the property demands loss_handled = master && lostp ; CONCILIATION refutes it *)
-Lemma loss_handled_spec : forall st master lostp, st <> WConciliation ->
-  loss_handled st master lostp = master && lostp.
-Proof. intros st m l H. destruct st; [| |contradiction]; unfold loss_handled; rewrite andb_true_r; reflexivity. Qed.
+(* in every working state (CONCILIATION included since /repo 4ab9225) the Master hands every batch of lost
+   processes to the handler, and a non-Master whose Master survives never does *)
+Lemma loss_handled_spec : forall st r lostp, r <> RNextMaster ->
+  loss_handled st r lostp = loss_expected r lostp.
+Proof. intros st r l H. destruct r; try reflexivity. contradiction. Qed.
 
-Lemma loss_in_conciliation_refuted :
-  exists st master lostp, loss_handled st master lostp <> master && lostp.
-Proof. exists WConciliation, true, true. vm_compute. discriminate. Qed.
+(* F9 (known finding): processes lost together with the Master are never handed to the handler by the next one *)
+Lemma lost_with_master_refuted :
+  exists st lostp, loss_handled st RNextMaster lostp <> loss_expected RNextMaster lostp.
+Proof. exists WOperation, true. vm_compute. discriminate. Qed.
 
 (* Master only *)
-Lemma master_only : forall st s lostp crashed forced,
-  loss_handled st false lostp = false /\ crash_handled s false crashed forced = false
-  /\ crash_ending s false crashed = 0.
+Lemma master_only : forall st s lostp crashed forced el,
+  loss_handled st RSlave lostp = false /\ crash_handled s false crashed forced = false
+  /\ crash_ending s false crashed = 0 /\ crash_ending_entered s false crashed el = false.
 Proof. intros. repeat split. Qed.
+
+(* a requested RESTART / SHUTDOWN is entered from OPERATION (re-checked against the reflected transition table) *)
+Lemma crash_ending_entered_operation : forall s master crashed,
+  crash_ending_entered s master crashed false = negb (Z.eqb (crash_ending s master crashed) 0).
+Proof. intros s m cr. destruct s, m, cr; vm_compute; reflexivity. Qed.
+
+(* SHUTDOWN is entered from ELECTION as well ... *)
+Lemma crash_shutdown_entered_election : crash_ending_entered RfShutdown true true true = true.
+Proof. vm_compute. reflexivity. Qed.
+
+(* ... F10 (known finding): RESTART is not, the table has no edge ELECTION -> RESTARTING and the order is dropped *)
+Lemma election_restart_dropped_refuted :
+  exists s master crashed,
+    crash_ending s master crashed <> 0 /\ crash_ending_entered s master crashed true = false.
+Proof. exists RfRestart, true, true. vm_compute. split; [discriminate|reflexivity]. Qed.
 
 Lemma crash_handled_spec : forall s master crashed forced,
   crash_handled s master crashed forced = true <->
